@@ -1,4 +1,6 @@
 """C01 — value semantics: writes stay local, read-only operations are pure."""
+from hypothesis import strategies as st
+
 from harness.loader import load
 from harness.runner import Part
 from harness import world as W
@@ -121,7 +123,25 @@ def run(case, ctx):
     ctx.label("programs_with_related_write", int(h.related_writes > 0))
 
 
+# ---------------------------------------------------------------- directed histories
+# Two situations the free histories reach too rarely, written as fixed prefixes (in the world's own step language) followed by a
+# generated tail of writes: (A) caller-owned tuples handed over as the new cells of a whole column / a whole vector while other
+# vectors over the same tuple are alive; (B) joins whose key columns hold days on one side and datetimes on the other.
+PREFIX_A = [["vec_tuple", 0, 0, 0, [1, 2, 3], False], ["table_dict", 0, 1, 0, [4, 5, 6], False], ["tset_col", 0, 0, 1, [], False],
+            ["vec_list", 0, 0, 0, [7, 8, 9], False], ["set_slice", 39, 0, 3, [], False], ["vec_tuple", 0, 0, 0, [], False]]
+PREFIX_B = [["table_dict", 0, 1, 2, [1, 2, 3], False], ["table_dict", 0, 3, 2, [1, 2, 3], False],
+            ["join", 0, 3, 0, [], False], ["join", 0, 3, 4, [], False], ["join", 0, 3, 8, [], False], ["join", 3, 0, 0, [], False]]
+
+
+def directed_programs(tier):
+    tail = W.program(min_steps=3, max_steps=14, classes=["write", "view"], always=("write",),
+                     extra_ops=["vec_tuple", "tset_row", "tset_row", "tset_cell", "set_int", "set_slice", "col_view", "join", "row_index"])
+    return st.builds(lambda pre, suf: [list(x) for x in pre] + [s_ for s_ in suf if s_[0] not in ("table_dict",) or True],
+                     st.sampled_from([PREFIX_A, PREFIX_B]), tail)
+
+
 def parts(tier):
     mx = 30 if tier == "quick" else 60
     return [Part("histories", run, strategy=lambda t: W.program(min_steps=6, max_steps=mx, extra_ops=["vec_tuple"] * 5 + ["set_int", "set_slice", "attr_assign", "row_index", "row_index", "rename_column", "tset_cell", "set_index", "set_index"]), examples=(4000, 48000), shards=(16, 16),
-                 floors={"programs_with_related_write": 0.1})]
+                 floors={"programs_with_related_write": 0.1}),
+            Part("directed", run, strategy=lambda t: directed_programs(t), examples=(600, 12000), shards=(4, 16))]
